@@ -384,6 +384,10 @@ class CompilerProcess:
             path = cands[op.get("pick", 0) % len(cands)]
             data = fs.h_read(path)
             how = op["how"]
+            if how == "delete":
+                # `make clean`, or a checkout that removed the generated file
+                fs.h_unlink(path)
+                return {"i": i, "op": kind, "outcome": "ok", "file": path.rsplit("/", 1)[-1], "how": how}
             if how == "crlf":
                 data = data.replace(b"\r\n", b"\n").replace(b"\n", b"\r\n")
             elif how == "cr":
